@@ -16,7 +16,7 @@ CONFIG = {
             "statuses + fee sink + rewards pool, blocks of payments, account creations, closes, keyreg online (short and long key "
             "validity, some incentive-eligible) / offline / non-participating, key expirations applied by the evaluator, rewards-level "
             "changes every round (rate refresh interval 3..8 or the real one; reward unit 1e6 / 1000 / 7; sometimes a nearly empty pool), "
-            "interleaved with scripted tracker commits (lookback 0..5 => offsets 1..n) and reloadLedger; after every block Totals(latest) "
+            "interleaved with scripted tracker commits (lookback 0..5 => offsets 1..n) and reloadLedger; every 4th history runs with catchpoint tracking on (interval 10, CatchpointLookback 4) and large flushes that the catchpoint tracker shortens to a first-stage round, each followed by a direct read of the persisted accounttotals row compared with the accounts of the DB round, then a reload; after every block Totals(latest) "
             "and after every commit/reload Totals(r) for EVERY servable round r (plus one below dbRound and one above latest) are compared "
             "with the class sums of Ledger.LookupAccount over EVERY address ever seen, with the sums over the accounts implied by the "
             "StateDeltas, and with the model.  A history is non-trivial when at least one account changed status class and at least one "
